@@ -31,7 +31,7 @@ var srcC16 = []*g2lTarget{
 	{
 		// the file system and the lexical join are oracles: `m.pluginFS.SysPath` is a field of the
 		// manager value, `path.Join` and `NewCLIPlugin` (os.Stat + regular-file test) are parameters
-		file: "plugin/manager.go", recv: "CLIManager", fn: "Get", leanName: "CLIManager.Get",
+		file: "plugin/manager.go", recv: "CLIManager", fn: "Get", recvName: "m", leanName: "CLIManager.Get",
 		params:    "(m : CLIManager) (w : World) (ctx : Unit) (name : String)",
 		ret:       "Option CLIPlugin × Option GoLite.Err",
 		retOpt:    []bool{true, true},
@@ -39,7 +39,7 @@ var srcC16 = []*g2lTarget{
 		callSubst: map[string]string{"path.Join": "w.pathJoin", "NewCLIPlugin": "w.NewCLIPlugin"},
 	},
 	{
-		file: "plugin/manager.go", recv: "CLIManager", fn: "Uninstall", leanName: "CLIManager.Uninstall",
+		file: "plugin/manager.go", recv: "CLIManager", fn: "Uninstall", recvName: "m", leanName: "CLIManager.Uninstall",
 		params:    "(m : CLIManager) (w : World) (ctx : Unit) (name : String)",
 		ret:       "Option GoLite.Err",
 		retOpt:    []bool{true},
